@@ -10,7 +10,7 @@ PROPERTY = "C11"
 LEVEL = "exploration"
 BUDGET = {"quick": 40, "thorough": 600}
 CAUSES = ["conn_close", "http10", "bad_request", "too_few_bytes", "too_few_bytes_zero", "exc_after_head", "no_length",
-          "client_fin", "client_rst", "bad_chunk", "oversize_body", "send_error"]
+          "client_fin", "client_rst", "bad_chunk", "oversize_body", "send_error", "recv_error"]
 FOLLOW = ["complete", "partial", "garbage", "complete_with_body"]
 EVIDENCE = {
     "rule": "one or two connections; 0-3 ordinary keep-alive requests, then a closing message (cause drawn from: "
@@ -25,6 +25,7 @@ EVIDENCE = {
         "for client faults the rule is: if the server closed the socket before application call k returned, call k+1 must not exist",
         "a worker's flush that merely could not send (the peer is gone: send reports 0 bytes) is a hint, not the decision - the I/O thread decides - and is not used as the decision point; "
         "a worker's flush that fails with any other socket error is the decision (the channel marks itself will_close there): the request being served is the last one",
+        "a recv() that fails with such an error on the I/O thread is the decision as soon as the loop is back in its poll: no queued request may start after that",
     ],
 }
 
@@ -181,6 +182,10 @@ def run_one(tapes, tier, scenario=None):
             # not one of the "peer is gone" codes
             import errno as _errno
             sim.add_fault(cid, "send", c["fault_after"] % 6, getattr(_errno, c.get("errno", "ETIMEDOUT")))
+        elif p["cause"] == "recv_error":
+            # the n-th recv() on the connection raises such an error (the I/O thread meets it)
+            import errno as _errno
+            sim.add_fault(cid, "recv", c["fault_after"] % 5, getattr(_errno, c.get("errno", "ETIMEDOUT")))
         sim.add_client(steps, cid=cid)
 
     sim.run()
@@ -211,7 +216,7 @@ def run_one(tapes, tier, scenario=None):
                 kclose, why = i, "HTTP/1.0 response without keep-alive"
             elif r.status in (400, 413, 431, 500, 501) and r.get("Server") is not None and b"generated by" in r.body:
                 kclose, why = i, "server error response %d" % r.status
-            elif not r.complete and not s.rst and not any(e[2] == "fault" and e[3] == cid and e[4] == "send" for e in k.history):
+            elif not r.complete and not s.rst and not any(e[2] == "fault" and e[3] == cid and e[4] in ("send", "recv") for e in k.history):
                 # (a response cut short by the client's own reset, or by the injected failure of send() itself, is
                 # not a server decision: the rules for faults below apply instead)
                 kclose, why = i, "undelimitable response"
@@ -248,6 +253,18 @@ def run_one(tapes, tier, scenario=None):
                     res.v("executed_after_send_error", p["cause"],
                           "conn %d: send() raised %s on worker %s at seq %d while request %d was being served, yet the application was called again at seq %d for %s; lookahead %d" % (
                               cid, e[6], e[1], e[0], call_pos[during[-1]], after[0]["begin"], after[0]["path"], sc["lookahead"]))
+                break
+        # a socket error met by the I/O thread while reading: by the time the loop is back in its poll the
+        # connection has been given up, and nothing that was queued on it may start any more
+        for e in k.history:
+            if e[2] == "fault" and e[3] == cid and e[4] == "recv" and e[1] == "io" and e[6] not in ("RST", "FIN", "FIN-arrives", "EAGAIN", "EWOULDBLOCK"):
+                back = next((x[0] for x in k.history if x[0] > e[0] and x[1] == "io" and x[2] in ("select", "poll")), None)
+                if back is not None:
+                    after = [c for c in calls if c["begin"] is not None and c["begin"] > back]
+                    if after:
+                        res.v("executed_after_recv_error", p["cause"],
+                              "conn %d: recv() raised %s at seq %d, the I/O loop was back in its poll at seq %d, yet the application was called at seq %d for %s; lookahead %d" % (
+                                  cid, e[6], e[0], back, after[0]["begin"], after[0]["path"], sc["lookahead"]))
                 break
         if sorted(call_pos) != call_pos or len(set(call_pos)) != len(call_pos):
             res.v("order", "calls_out_of_order", "conn %d: calls %r" % (cid, call_pos))
